@@ -646,7 +646,8 @@ fn run_child(dir: &str, tag: &str, cases: &[String]) -> ChildRun {
         .stderr(errf);
     let mut child = cmd.spawn().expect("spawn child");
     let t0 = std::time::Instant::now();
-    let budget = std::time::Duration::from_millis(60_000 + cases.len() as u64 * 30);
+    // the code under test is built without optimisation (like its own test suite): very long sources compile slowly
+    let budget = std::time::Duration::from_millis(420_000 + cases.len() as u64 * 200);
     let mut hang = false;
     let status = loop {
         match child.try_wait() {
